@@ -396,6 +396,29 @@ def check_make(n, ths, iflist_len):
     return ("make-length", f"make_snowpack accepted {len(ths)} thicknesses with {iflist_len} interfaces", "SMRTError (array length mismatch)")
 
 
+def check_length_mismatch(ctor, which, wrap, delta):
+    """a per-layer argument (named or passed through **kwargs) that is one element longer or shorter than the thicknesses: SMRTError"""
+    import pandas as pd
+    from smrt.inputs.make_medium import make_snowpack, make_ice_column
+    from smrt.core.error import SMRTError
+    th = [0.1, 0.2, 0.3]
+    n = len(th) + delta
+    w = {"list": list, "ndarray": np.array, "series": pd.Series}[wrap]
+    base = dict(density=300.0, temperature=260.0, corr_length=1e-4, salinity=0.005)
+    vals = dict(base)
+    vals[which] = w([base[which]] * n)
+    try:
+        if ctor == "make_snowpack":
+            make_snowpack(th, "exponential", density=vals["density"], temperature=vals["temperature"], corr_length=vals["corr_length"])
+        else:
+            make_ice_column("firstyear", th, vals["temperature"], "exponential", salinity=vals["salinity"], corr_length=vals["corr_length"])
+    except SMRTError:
+        return None
+    except Exception as e:  # noqa
+        return ("make-foreign:" + ctor, f"{ctor} with {n} values of {which} ({wrap}) for {len(th)} layers raises " + type(e).__name__, "SMRTError")
+    return ("make-length:" + ctor, f"{ctor} accepted {n} values of {which} ({wrap}) for {len(th)} layers", "SMRTError (array length mismatch)")
+
+
 def check_make_values(seed, shape):
     """per-layer properties equal those given, by position, whatever the argument shape (list, ndarray, Series with any index), scalars
     broadcast, zero-thickness layers dropped"""
@@ -605,6 +628,15 @@ def oracle(ctx, hints, effort):
             r = check_surface(sd, ctor)
             if r is not None:
                 findings.setdefault(r[0], Finding(r[0], r[1], {"kind": "surface", "seed": sd, "ctor": ctor}, r[1], r[2]))
+    for ctor, names in (("make_snowpack", ("density", "temperature", "corr_length")), ("make_ice_column", ("temperature", "salinity", "corr_length"))):
+        for which in names:
+            for wrap in ("list", "ndarray", "series"):
+                for delta in (1, -1):
+                    evals += 1
+                    r = check_length_mismatch(ctor, which, wrap, delta)
+                    if r is not None:
+                        findings.setdefault(r[0], Finding(r[0], r[1], {"kind": "length-mismatch", "ctor": ctor, "which": which, "wrap": wrap, "delta": delta},
+                                                          r[1], r[2]))
     for (ths, m) in [([1, 2], 3), ([1, 2, 3], 5), ([1], 2)]:
         evals += 1
         r = check_make(len(ths), ths, m)
@@ -616,6 +648,9 @@ def oracle(ctx, hints, effort):
 def replay(inp, rp=None):
     if inp["kind"] == "history":
         r = check_history(inp["ops"])
+        return Finding("?", r[1], inp, r[1], r[2]) if r else None
+    if inp["kind"] == "length-mismatch":
+        r = check_length_mismatch(inp["ctor"], inp["which"], inp["wrap"], inp["delta"])
         return Finding("?", r[1], inp, r[1], r[2]) if r else None
     if inp["kind"] == "layer-updates":
         r = check_layer_updates(inp["seed"])
